@@ -32,8 +32,8 @@ def _sd_bytes(module):
 
 def _state(module):
     """(parameters, buffers) of the layer itself as raw bytes."""
-    return ({k: core.tbytes(v) for k, v in module.named_parameters(recurse=False)},
-            {k: core.tbytes(v) for k, v in module.named_buffers(recurse=False)})
+    return ({k: core.tbytes(v) for k, v in module.named_parameters(recurse=True)},
+            {k: core.tbytes(v) for k, v in module.named_buffers(recurse=True)})
 
 
 def _per_feature(a):
@@ -268,8 +268,8 @@ def build(cfg, seed):
     else:
         layer = T.BatchNorm(F, eps=cfg["eps"], momentum=cfg["momentum"])
         with torch.no_grad():
-            layer.unconstrained_weight.add_(core.seeded(cfg["init_seed"] + 1, (F,), scale=cfg["affine_mag"]))
-            layer.bias.add_(core.seeded(cfg["init_seed"] + 2, (F,), scale=cfg["affine_mag"]))
+            for i, (_, p) in enumerate(sorted(layer.named_parameters())):     # non-default affine parameters, by position
+                p.add_(core.seeded(cfg["init_seed"] + 1 + i, tuple(p.shape), scale=cfg["affine_mag"]))
     if nest == "bare":
         root = layer
     elif nest == "comp":
@@ -297,6 +297,42 @@ def build(cfg, seed):
     else:
         raise HarnessError("nest %r" % nest)
     return root
+
+
+def _install_class_wrappers():
+    """In-process instrumentation of the imported classes (no edit to /repo): ActNorm/BatchNorm.forward and .inverse
+    report (inputs, outputs) of monitored instances to their world."""
+    from nflows.transforms.normalization import ActNorm, BatchNorm
+
+    def _inputs(args, kwargs):
+        return args[0] if args else kwargs.get("inputs")
+
+    for cls in (ActNorm, BatchNorm):
+        if cls.__dict__.get("_c14_wrapped"):
+            continue
+        orig_forward, orig_inverse = cls.forward, cls.inverse
+
+        def forward(self, *args, _orig=orig_forward, **kwargs):
+            out = _orig(self, *args, **kwargs)
+            world = self.__dict__.get("_c14_world")
+            if world is not None:
+                world._observe_guarded(self.__dict__["_c14_idx"], "forward", _inputs(args, kwargs), out)
+            return out
+
+        def inverse(self, *args, _orig=orig_inverse, **kwargs):
+            world = self.__dict__.get("_c14_world")
+            try:
+                out = _orig(self, *args, **kwargs)
+            except Exception as e:   # noqa: BLE001
+                if world is not None:
+                    world._observe_inverse_raised(self.__dict__["_c14_idx"], e)
+                raise
+            if world is not None:
+                world._observe_guarded(self.__dict__["_c14_idx"], "inverse", _inputs(args, kwargs), out)
+            return out
+
+        cls.forward, cls.inverse = forward, inverse
+        cls._c14_wrapped = True
 
 
 class C14World(World):
@@ -381,6 +417,7 @@ class C14World(World):
     # ------------------------------------------------------------ set-up
     def __init__(self, cfg):
         super().__init__(cfg)
+        _install_class_wrappers()
         self.root = build(cfg, cfg["init_seed"])
         self.mode = True           # a freshly constructed module is in training mode
         self.lmode = []            # expected mode per monitored layer (mode switches may target a layer directly)
@@ -427,32 +464,11 @@ class C14World(World):
         return None
 
     def _hook(self, mod, ref, idx):
-        world = self
-
-        orig_forward = mod.forward          # bound methods of the class: no edit to /repo
-        orig_inverse = mod.inverse
-
-        def _inputs(args, kwargs):
-            return args[0] if args else kwargs.get("inputs")
-
-        def forward(*args, **kwargs):
-            # an instance attribute shadows the class method, so the layer is observed whether a container reaches
-            # it through __call__ or through .forward, positionally or by keyword
-            out = orig_forward(*args, **kwargs)
-            world._observe_guarded(idx, "forward", _inputs(args, kwargs), out)
-            return out
-
-        def inverse(*args, **kwargs):
-            try:
-                out = orig_inverse(*args, **kwargs)
-            except Exception as e:   # noqa: BLE001
-                world._observe_inverse_raised(idx, e)
-                raise
-            world._observe_guarded(idx, "inverse", _inputs(args, kwargs), out)
-            return out
-
-        mod.forward = forward
-        mod.inverse = inverse            # instance attribute shadows the class method
+        # the layer classes are wrapped once per process (see _install_class_wrappers); the wrappers dispatch to the
+        # world an instance belongs to. Wrapping the class - before any model is built - also covers containers that
+        # bind child.forward / child.inverse at construction time.
+        mod.__dict__["_c14_world"] = self
+        mod.__dict__["_c14_idx"] = idx
 
     # ------------------------------------------------------------ observation of layer calls
     def _observe_guarded(self, idx, direction, x, out):
@@ -696,6 +712,8 @@ class C14World(World):
             fresh.load_state_dict(self.load_bytes(source), strict=True)
         except Exception as e:   # noqa: BLE001
             raise Violation("state_dict_does_not_reload", "%s: %s" % (type(e).__name__, str(e)[:300]))
+        for old_layer, _ in self.monitored:
+            old_layer.__dict__.pop("_c14_world", None)
         self.root = fresh
         self.mode = True     # volatile: a fresh incarnation is in training mode
         self._attach()
